@@ -147,11 +147,13 @@ async fn rawpeer(c: &Value) -> Value {
   let mut got = 0usize;
   // always try one more than expected to detect duplicates / spurious messages
   let app_pace = c.get("app_pace_ms").and_then(|v| v.as_u64()).unwrap_or(0);
-  for _ in 0..expect + 1 {
+  for k in 0..expect + 1 {
     if app_pace > 0 {
       tokio::time::sleep(Duration::from_millis(app_pace)).await;
     }
-    match tokio::time::timeout(rt, sock.recv_multipart()).await {
+    // the first expected message also has to wait for the handshake: give it more time on a busy machine
+    let this_rt = if k == 0 && expect > 0 { rt.max(Duration::from_millis(2500)) } else { rt };
+    match tokio::time::timeout(this_rt, sock.recv_multipart()).await {
       Ok(Ok(frames)) => {
         got += 1;
         rows.push(vec![6, frames.len() as u64]);
